@@ -16,8 +16,9 @@ def rnd_mag(rng, lo=-6, hi=9):
     return rng.choice([-1, 1]) * 10 ** rng.uniform(lo, hi)
 
 
-def gen_lin_domain(rng):
-    style = rng.random()
+def gen_lin_domain(rng, near_degenerate=False):
+    # C13/C14 quantify over spans of at least a millionth of the end points' magnitude; C12 over every a != b
+    style = rng.random() * (1.0 if near_degenerate else 0.93)
     if style < 0.35:   # decimal friendly
         e = rng.randint(-6, 8)
         k = rng.choice([1, 2, 5]) * rng.randint(1, 40)
@@ -28,9 +29,15 @@ def gen_lin_domain(rng):
         span = 10 ** rng.uniform(-9, 12)
         span = max(span, abs(a) * 1e-6 * rng.choice([1.01, 10, 1000]))
         b = a + span
-    else:
+    elif style < 0.93:
         a = rng.choice([0, 0.0, 1, -1, 100, rng.randint(-1000, 1000)])
         b = a + rng.choice([1, 10, 0.1, 0.5, 3, 7, 12.5, 99, 1000, rng.uniform(0.001, 5000)])
+    else:
+        # nearly degenerate but NOT degenerate: the width is a few units in the last place up to 1e-7 of the magnitude
+        # (sub-second time spans seen from the epoch look like this: [1e12, 1e12 + 250])
+        import math
+        a = rng.choice([1.0, 1e6, 1e9, 2.5e8, -1e9, 123456.789, rnd_mag(rng)]) or 1.0
+        b = a + rng.choice([1, 2, 3, 17, 1000, 1e6]) * math.ulp(a) if rng.random() < 0.5 else a + abs(a) * 10 ** rng.uniform(-13, -7)
     if a == b:
         b = a + 1.0
     return (float(a), float(b)) if rng.random() < 0.8 else (float(b), float(a))
@@ -47,7 +54,7 @@ def body_c12(tier, seed, rep, only_prop=False, scale=1):
     lines, metas = [], []
     n = (5000 if tier == "quick" else 50000) * scale
     for _ in range(n):
-        a, b = gen_lin_domain(rng)
+        a, b = gen_lin_domain(rng, near_degenerate=True)
         r0 = rng.choice([0.0, 0.0, -50.0, 12.5, rnd_mag(rng, -3, 6)])
         r1 = r0 + rng.choice([1, -1]) * rng.choice([100.0, 360.0, 1.0, 1000.0, 10 ** rng.uniform(-3, 6)])
         c = rng.random() < 0.3
@@ -98,6 +105,29 @@ def body_c12(tier, seed, rep, only_prop=False, scale=1):
             elif f["same"] != "ok" and not only_prop:
                 # reported state differs from the model's: e.g. a copy and its original influenced each other
                 rep.prop_fail.append(("C12 reported domain/range/clamp after the history differ from the independent-objects model: " + ans, payload))
+
+
+def run_tick_history(ops, m):
+    """LinearScale driven through ops; returns (reported domain, ticks, texts) asked at the end with count m"""
+    from labella.scale import LinearScale
+    sc = LinearScale()
+    for o in ops:
+        if o[0] == "domain":
+            sc.domain(list(o[1]))
+        elif o[0] == "range":
+            sc.range(list(o[1]))
+        elif o[0] == "nice":
+            sc.nice(o[1]) if o[1] is not None else sc.nice()
+        elif o[0] == "ticks":
+            list(sc.ticks(o[1])) if o[1] is not None else list(sc.ticks())
+        elif o[0] == "tickFormat":
+            sc.tickFormat(o[1]) if o[1] is not None else sc.tickFormat()
+        elif o[0] == "copy":
+            sc = sc.copy()
+    d = sc.domain()
+    tk = list(sc.ticks(m)) if m is not None else list(sc.ticks())
+    fmt = sc.tickFormat(m) if m is not None else sc.tickFormat()
+    return d, tk, [fmt(t) for t in tk]
 
 
 def gen_history(rng):
@@ -165,6 +195,40 @@ def body_c13(tier, seed, rep, only_prop=False, scale=1):
         except Exception as e:
             rep.prop_fail.append(("ticks/tickFormat raised %s: %s" % (type(e).__name__, e), {"case": meta})); continue
         lines.append("lticks|%s|%s|%s|%s|%s" % (fr(a), fr(b), fr(10 if m is None else m), ",".join(fr(t) for t in tk), ";".join(texts))); metas.append(meta)
+    # the ticks must be those of the domain the scale reports NOW: ask the same object (and its copies) again after its domain was
+    # changed by domain(), nice() or through a copy, with ticks()/tickFormat() calls in between
+    for _ in range((1500 if tier == "quick" else 20000) * scale):
+        a, b = gen_lin_domain(rng)
+        ops = [("domain", [a, b])]
+        for _k in range(rng.randint(1, 5)):
+            c = rng.random()
+            if c < 0.3:
+                ops.append(("ticks", pick_m(rng)))
+            elif c < 0.4:
+                ops.append(("tickFormat", pick_m(rng)))
+            elif c < 0.65:
+                ops.append(("nice", pick_m(rng)))
+            elif c < 0.8:
+                ops.append(("domain", list(gen_lin_domain(rng))))
+            elif c < 0.9:
+                ops.append(("copy",))
+            else:
+                ops.append(("range", [rng.choice([0.0, 10.0, -5.0]), rng.choice([100.0, 360.0, 1.0])]))
+        m = pick_m(rng)
+        if rng.random() < 0.7:      # ask with a count that was used before, when there is one
+            used = [o[1] for o in ops if o[0] in ("ticks", "tickFormat")]
+            m = rng.choice(used) if used else m
+        meta = {"kind": "lticks-history", "ops": ops, "m": m}
+        try:
+          with time_limit(10):
+            d, tk, texts = run_tick_history(ops, m)
+        except Exception as e:
+            rep.prop_fail.append(("ticks/tickFormat raised %s after a history: %s" % (type(e).__name__, e), {"case": meta})); continue
+        if d[0] == d[1]:
+            continue
+        meta["a"], meta["b"] = d[0], d[1]
+        lines.append("lticks|%s|%s|%s|%s|%s" % (fr(d[0]), fr(d[1]), fr(10 if m is None else m), ",".join(fr(t) for t in tk), ";".join(texts))); metas.append(meta)
+        rep.count("ticks-after-history")
     answers = drive(lines)
     for line, meta, ans in zip(lines, metas, answers):
         f = fields(ans)
@@ -281,6 +345,9 @@ def replay_case(pid, replay):
         tk = list(s.ticks(m["m"])) if m["m"] is not None else list(s.ticks())
         fmt = s.tickFormat(m["m"]) if m["m"] is not None else s.tickFormat()
         line = "lticks|%s|%s|%s|%s|%s" % (fr(m["a"]), fr(m["b"]), fr(10 if m["m"] is None else m["m"]), ",".join(fr(t) for t in tk), ";".join(fmt(t) for t in tk))
+    elif k == "lticks-history":
+        d, tk, texts = run_tick_history([tuple(o) for o in m["ops"]], m["m"])
+        line = "lticks|%s|%s|%s|%s|%s" % (fr(d[0]), fr(d[1]), fr(10 if m["m"] is None else m["m"]), ",".join(fr(t) for t in tk), ";".join(texts))
     elif k == "lnice":
         s = LinearScale().domain([m["a"], m["b"]])
         s.nice(m["m"]) if m["m"] is not None else s.nice()
